@@ -91,7 +91,7 @@ func c03(c *core.Ctx, r *core.Report) {
 
 	// R7: the registry hands out one early reference per creation and keeps it visible to lookups that do not allow
 	// creating one (the creator's version check relies on it)
-	for _, T := range c.Implementors(c.Iface("container", "SingletonComponentRegistry")) {
+	for _, T := range implementorsBehindFacades(c, "container", "SingletonComponentRegistry") {
 		sub := core.NewReport("C04", c.Tier, 0)
 		c04Explore(c, sub, T)
 		for _, o := range sub.Obls {
